@@ -61,7 +61,7 @@
         assert!(out == "&lt;&amp;&gt;|&lt;&amp;&gt;|&LT;&AMP;&GT;" || out == "&lt;&amp;&gt;|&lt;&amp;&gt;|&amp;LT;&amp;AMP;&amp;GT;", "{out}");
     }
 
-//# ob name=safe_capture_filters_native role=native_bounded fn=filters::*+value::argtypes::StringInput::{format,preserve_safety} kind=bounded bound="every built-in filter except safe / tojson x 19 argument shapes (the capture and unsafe data as plain string and inside list / tuple / map in every argument position) x 3 kinds of capture x 2 data / markup pairs, and the capture as a format string / operand of ~ (16 shapes x 4 format strings); 4 kinds of captured (already escaped, safe) output {set-block, macro result, call-block caller(), filter block} x 16 safety-aware filter expressions combining the capture with unsafe data in every argument position (needle present / absent / data-dependent, joiner and items) x 2 data/markup pairs chosen so that every metacharacter in the output can be attributed (quotes only in the data with angle brackets only in the markup, and the reverse) x 3 template names" stmt="when a safety-aware filter combines captured output with unsafe data, the data is escaped exactly once (no raw < > \" ' from data) and the captured output is not escaped a second time, whether or not the needle occurs and whichever metacharacters the data contains"
+//# ob name=safe_capture_filters_native role=native_bounded fn=filters::*+value::argtypes::StringInput::{format,preserve_safety} kind=bounded bound="every built-in filter except safe / tojson x 19 argument shapes (the capture and unsafe data as plain string and inside list / tuple / map in every argument position) and x every keyword name the filters source mentions x 4 keyword shapes x 3 kinds of capture x 2 data / markup pairs, and the capture as a format string / operand of ~ (16 shapes x 4 format strings); 4 kinds of captured (already escaped, safe) output {set-block, macro result, call-block caller(), filter block} x 16 safety-aware filter expressions combining the capture with unsafe data in every argument position (needle present / absent / data-dependent, joiner and items) x 2 data/markup pairs chosen so that every metacharacter in the output can be attributed (quotes only in the data with angle brackets only in the markup, and the reverse) x 3 template names" stmt="when a safety-aware filter combines captured output with unsafe data, the data is escaped exactly once (no raw < > \" ' from data) and the captured output is not escaped a second time, whether or not the needle occurs and whichever metacharacters the data contains"
     fn safe_capture_filters_native() {
         use crate::Environment;
         // (data, markup of the capture, raw characters that can only come from data, entity prefixes that can only come from escaping the markup or escaping twice)
@@ -117,6 +117,20 @@
                       "C|F(attribute=v)", "[{'a': C, 'b': v}]|F(attribute='b')", "[{'a': C, 'b': [v]}]|map(attribute='b')|F(C)"];
         let fmt_shapes = ["C|format(v)", "C|format([v])", "C|format((v, v))", "C|format({'k': v})", "C|format(k=v)", "C|format(k=[v])", "C|format(v, [v])", "C|format(C, v)", "C|format([C, v])", "C ~ v", "C ~ [v]", "v ~ C", "[v] ~ C", "C ~ {'k': v}",
                           "C * 2 ~ [v]", "(C ~ C)|format(v, [v])"];
+        // keyword arguments: every keyword name the filters' source mentions (harvested from the staged filters.rs itself,
+        // so a keyword that starts accepting strings is exercised without editing this list) x every filter x 4 shapes
+        let kw_names: Vec<String> = {
+            let src = include_str!("filters.rs");
+            let mut names: Vec<String> = ["attribute", "width", "first", "blank", "default", "reverse", "case_sensitive", "indent", "method", "fill_with", "start", "by", "sep", "maxsplit", "length", "end", "killwords", "leeway", "d", "value", "count", "precision", "boolean"].iter().map(|s| s.to_string()).collect();
+            let mut rest = src;
+            while let Some(p) = rest.find("kwargs.") {
+                rest = &rest[p + 7..];
+                if let Some(q) = rest.find("(\"") { if q < 40 { let tail = &rest[q + 2..]; if let Some(e) = tail.find('"') { let n = &tail[..e]; if !n.is_empty() && n.chars().all(|c| c.is_ascii_lowercase() || c == '_') && !names.iter().any(|x| x == n) { names.push(n.to_string()); } } } }
+            }
+            names
+        };
+        assert!(kw_names.len() >= 23);
+        let kw_shapes = ["C|F(K=v)", "C|F(K=[v])", "C|F(v, K=v)", "[C, v]|F(K=v)"];
         let mut m = 0;
         for (data, markup, raw_from_data, _) in pairs {
             let env = Environment::new();
@@ -130,6 +144,15 @@
                     check_raw(&cap.replace("MARKUP", markup).replace("EXPR", &sh.replace('F', f).replace('C', "c")));
                     m += 1;
                 }}
+                // the keyword sweep uses a capture of several lines (line-oriented filters only act on those) and, where the
+                // filter takes them, the switches that make it act on the first line / on blank lines too
+                let multi = format!("{markup}\n\n{markup}\n");
+                for f in &filters { for k in &kw_names { for sh in kw_shapes { for extra in ["", ", first=true, blank=true"] {
+                    let call = sh.replace('F', f).replace('K', k).replace('C', "c");
+                    let call = if extra.is_empty() { call } else { match call.rfind(')') { Some(p) => format!("{}{}{}", &call[..p], extra, &call[p..]), None => continue } };
+                    check_raw(&cap.replace("MARKUP", &multi).replace("EXPR", &call));
+                    m += 1;
+                }}}}
                 for fm in ["%s", "%s %s", "%(k)s", "[%s|%s]"] { for sh in fmt_shapes {
                     let mk = format!("{markup}{fm}");
                     check_raw(&cap.replace("MARKUP", &mk).replace("EXPR", &sh.replace('C', "c")));
